@@ -107,6 +107,37 @@ def entry_point_offset(b):
     return None
 
 
+def entry_point_address(b, base):
+    """exefiles.c yr_get_entry_point_address (SCAN_FLAGS_PROCESS_MEMORY); None = YR_UNDEFINED"""
+    pe = exe_pe_header(b)
+    if pe is not None and not (u16(b, pe + 22) & 0x2000):
+        return base + u32(b, pe + 40)
+    if len(b) >= 16 and u32(b, 0) == 0x464C457F:
+        if b[4] == 1 and len(b) >= 52 and u16(b, 16) == 2:
+            return base + u32(b, 24)
+        if b[4] == 2 and len(b) >= 64 and u16(b, 16) == 2:
+            return base + u64(b, 24)
+    return None
+
+
+def pe_module_field_pm(b):
+    """pe module with SCAN_FLAGS_PROCESS_MEMORY: DLLs are skipped"""
+    v = pe_module_field(b)
+    if v is None:
+        return None
+    lfanew = struct.unpack_from("<i", b, 60)[0]
+    return None if u16(b, lfanew + 22) & 0x2000 else v
+
+
+def elf_module_field_pm(b):
+    """elf module with SCAN_FLAGS_PROCESS_MEMORY: only ET_EXEC is parsed"""
+    v = elf_module_field(b)
+    if v is None:
+        return None
+    typ = u16(b, 16) if b[5] == 1 else struct.unpack_from(">H", b, 16)[0]
+    return v if typ == 2 else None
+
+
 def pe_module_field(b):
     """pe module accepts the block (pe_utils.c pe_get_header) -> pe.entry_point_raw, else None"""
     if len(b) < 64 or u16(b, 0) != 0x5A4D:
@@ -261,6 +292,14 @@ class RuleSet:
         if k == "mod": return "%s == %d" % (MOD_FIELD[c[1]], c[2])
         if k == "hash": return 'hash.md5(%d, %d) == "%s"' % (c[1], c[2], c[3])
         if k == "ref": return "r%d" % c[1]
+        if k == "in": return "$s%d in (%d..%d)" % (c[1], c[2], c[3])
+        if k == "off": return "@s%d[%d] == %d" % (c[1], c[2], c[3])
+        if k == "cin": return "#s%d in (%d..%d) == %d" % (c[1], c[2], c[3], c[4])
+        if k == "len": return "!s%d[%d] == %d" % (c[1], c[2], c[3])
+        if k == "ofat": return "%d of (%s) at %d" % (c[1], ",".join("$s%d" % x for x in c[3]), c[2])
+        if k == "ofin": return "%d of (%s) in (%d..%d)" % (c[1], ",".join("$s%d" % x for x in c[4]), c[2], c[3])
+        if k == "forat": return "for any of (%s) : ($ at %d)" % (",".join("$s%d" % x for x in c[2]), c[1])
+        if k == "forin": return "for any of (%s) : ($ in (%d..%d))" % (",".join("$s%d" % x for x in c[3]), c[1], c[2])
         if k == "burn": return "for all i in (0..300) : (i >= 0)"
         if k == "not": return "not (%s)" % self.cond_src(c[1])
         if k in ("and", "or"): return "(%s) %s (%s)" % (self.cond_src(c[1]), k, self.cond_src(c[2]))
@@ -285,7 +324,10 @@ class RuleSet:
     def cond_rpn(self, c):
         k = c[0]
         if k in ("tt", "ff", "epdef", "burn"): return [k]
-        if k in ("str", "cnt", "at", "fseq", "fsge", "epeq", "rd", "ref"): return [":".join([k] + [str(a) for a in c[1:]])]
+        if k in ("str", "cnt", "at", "fseq", "fsge", "epeq", "rd", "ref", "in", "off", "cin", "len"):
+            return [":".join([k] + [str(a) for a in c[1:]])]
+        if k in ("ofat", "ofin", "forat", "forin"):
+            return [":".join([k] + [str(a) for a in c[1:-1]] + ["+".join(map(str, c[-1]))])]
         if k == "mod": return ["mod:%d:%d" % (MODS[c[1]], c[2])]
         if k == "hash": return ["hash:%d:%d" % (c[1], c[2])]
         if k == "not": return self.cond_rpn(c[1]) + ["not"]
@@ -298,7 +340,8 @@ class RuleSet:
             fl = r["flags"] + ("n" if self.noreq[i] else "")
             rs.append("%d,%s,%s,%s" % (r["ns"], fl or "-", "+".join(map(str, r["sidx"])) or "-", "~".join(self.cond_rpn(r["cond"]))))
         mi = "+".join(str(MODS[m]) for m in self.imports) or "-"
-        return "mr=%s mi=%s" % (";".join(rs), mi)
+        ms = "+".join(str(i) for i, x in enumerate(getattr(self, "single", [])) if x) or "-"
+        return "mr=%s mi=%s ms=%s" % (";".join(rs), mi, ms)
 
 
 class HarnessCrash(Exception):
@@ -337,46 +380,101 @@ def describe(harness_bin, rulesets, core):
                                "crash rs=%s in=-~0 fl=0 to=0 ops=S/0/-/-/-/0 ep=0" % rs.source().encode().hex(), rs.source())
         rs.noreq = [c == "1" for c in f["noreq"]]
         rs.fixed = [None if x == "-" else int(x) for x in f["fixed"].split(",")] if f.get("fixed") else []
+        rs.single = [c == "1" for c in f.get("single", "")]
 
 
 # ------------------------------------------------------------------------------------------------ inputs and facts
 
 class Input:
-    def __init__(self, data, parts=None, path=None, avail=None):
+    """bytes + how an iterator hands them out: block sizes, availability (fetch_data NULL), and the base address reported for
+    every block (default contiguous from 0; explicit `bases` model sparse address spaces)"""
+
+    def __init__(self, data, parts=None, path=None, avail=None, bases=None):
         self.data, self.path = data, path
         self.parts = parts if parts else [len(data)]
         self.avail = avail if avail else [True] * len(self.parts)
         assert sum(self.parts) == len(data)
+        cum = [sum(self.parts[:i]) for i in range(len(self.parts))]
+        self.doff = cum
+        self.bases = list(bases) if bases else cum
+        self.contiguous = self.bases == cum
 
-    def with_parts(self, parts, avail=None):
-        return Input(self.data, parts, self.path, avail)
+    def with_parts(self, parts, avail=None, bases=None):
+        return Input(self.data, parts, self.path, avail, bases)
 
     def harness_field(self):
         src = "@" + self.path if self.path else hx(self.data)
-        return src + "~" + "+".join("%d%s" % (p, "" if a else "!") for p, a in zip(self.parts, self.avail))
+        return src + "~" + "+".join("%d%s%s" % (p, "" if a else "!", "" if self.contiguous else "@%d" % bs)
+                                    for p, a, bs in zip(self.parts, self.avail, self.bases))
+
+    def blocks(self):
+        return [(bs, self.data[o:o + p], a) for bs, o, p, a in zip(self.bases, self.doff, self.parts, self.avail)]
+
+    def occurrences(self, rs):
+        """absolute (offset, string, length) found block by block, fixed-offset strings filtered"""
+        out = []
+        for base, b, a in self.blocks():
+            for si, s in enumerate(rs.all_strings()):
+                fx = rs.fixed[si] if si < len(rs.fixed) else None
+                for o, ln in str_findall(s, b):
+                    if fx is None or fx == base + o:
+                        out.append((base + o, si, ln))
+        return sorted(out)
+
+    def same_as_whole(self, rs):
+        """True if scanning this partition must give what scanning the same bytes as ONE block gives: contiguous, everything
+        available, no string occurrence / integer read cut by a block boundary, same executable header facts"""
+        if not self.contiguous or not all(self.avail):
+            return False
+        whole = Input(self.data)
+        if self.occurrences(rs) != whole.occurrences(rs):
+            return False
+        for c in rs.conds("rd"):
+            w, off = c[1], c[2]
+            if off + w <= len(self.data) and not any(bs <= off and off + w <= bs + len(b) for bs, b, _ in self.blocks()):
+                return False
+        b0 = self.blocks()[0][1]
+        d = self.data
+        if (entry_point_offset(b0), entry_point_address(b0, 0)) != (entry_point_offset(d), entry_point_address(d, 0)):
+            return False
+        for f in (pe_module_field, elf_module_field, pe_module_field_pm, elf_module_field_pm):
+            first = next((f(b) for _, b, _ in self.blocks() if f(b) is not None), None)
+            if first != f(d):
+                return False
+        # later blocks must not look like executables when the first does not (entry point is taken from the first that does)
+        if entry_point_offset(b0) is None and any(entry_point_offset(b) is not None for _, b, _ in self.blocks()[1:]):
+            return False
+        if any(isinstance(s, Bomb) for s in rs.all_strings()):
+            if any(Bomb.SAFE < Bomb.longest_run(b) < Bomb.SURE for _, b, _ in self.blocks()):
+                return False
+            if (Bomb.longest_run(d) >= Bomb.SURE) != any(Bomb.longest_run(b) >= Bomb.SURE for _, b, _ in self.blocks()):
+                return False
+        return True
 
     def facts(self, rs):
         d = self.data
         reads = []
         for c in rs.conds("rd"):
             w, off = c[1], c[2]
-            if off + w <= len(d) and (off, w) not in [(r[0], r[1]) for r in reads]:
-                reads.append((off, w, int.from_bytes(d[off:off + w], "little")))
+            for bs, b, _ in self.blocks():
+                if bs <= off and off + w <= bs + len(b) and (off, w) not in [(r[0], r[1]) for r in reads]:
+                    reads.append((off, w, int.from_bytes(b[off - bs:off - bs + w], "little")))
         hashok = []
-        for c in rs.conds("hash"):
-            if hashlib.md5(d[c[1]:c[1] + c[2]]).hexdigest() == c[3]:
-                hashok.append((c[1], c[2]))
+        if self.contiguous:
+            for c in rs.conds("hash"):
+                if hashlib.md5(d[c[1]:c[1] + c[2]]).hexdigest() == c[3]:
+                    hashok.append((c[1], c[2]))
         blks = []
-        base = 0
         strs = rs.all_strings()
-        for p, a in zip(self.parts, self.avail):
-            b = d[base:base + p]
+        for (base, b, a), p in zip(self.blocks(), self.parts):
             ep = entry_point_offset(b)
-            mods = []
-            v = pe_module_field(b)
-            if v is not None: mods.append("0:%d" % v)
-            v = elf_module_field(b)
-            if v is not None: mods.append("1:%d" % v)
+            eppm = entry_point_address(b, base)
+            mods, modspm = [], []
+            for mi, (f, fpm) in enumerate(((pe_module_field, pe_module_field_pm), (elf_module_field, elf_module_field_pm))):
+                v = f(b)
+                if v is not None: mods.append("%d:%d" % (mi, v))
+                v = fpm(b)
+                if v is not None: modspm.append("%d:%d" % (mi, v))
             cands = []
             err = None
             for si, s in enumerate(strs):
@@ -389,10 +487,10 @@ class Input:
             cands.sort()
             if err is not None:
                 assert not cands, "a block that makes the regexp engine fail must not contain other matches (their order is not modelled)"
-            blks.append("%d.%d.%d.%s.%s.%s.%s" % (base, p, 1 if a else 0, "-" if ep is None else str(ep), "&".join(mods) or "-",
-                                                   "&".join("%d:%d:%d" % (si, o, l) for o, si, l in cands) or "-",
-                                                   "-" if err is None else str(err)))
-            base += p
+            blks.append("%d.%d.%d.%s.%s.%s.%s.%s.%s" % (base, p, 1 if a else 0, "-" if ep is None else str(ep), "&".join(mods) or "-",
+                                                         "&".join("%d:%d:%d" % (si, o, l) for o, si, l in cands) or "-",
+                                                         "-" if err is None else str(err), "-" if eppm is None else str(eppm),
+                                                         "&".join(modspm) or "-"))
         return "|".join([str(len(d)), ",".join("%d.%d.%d" % r for r in reads) or "-",
                          ",".join("%d.%d" % h for h in hashok) or "-"] + blks)
 
